@@ -58,6 +58,45 @@ Theorem C18_while_uses_statement_line : forall ev k st c body,
 Proof. exact exec_while_uses_statement_line. Qed.
 Print Assumptions C18_while_uses_statement_line.
 
+(* Where an error is reported.  An expression that fails leaves the frame that evaluated it exactly as it was (its line
+   included) under the frames of the calls in progress — every fuel, state, expression and call depth ... *)
+Theorem C18_expression_fault_keeps_frame : forall n st e er s1,
+  wf st -> eval_expr n st e = Er er s1 -> exists extra, stack s1 = extra ++ stack st.
+Proof. exact expr_fault_keeps_frame. Qed.
+Print Assumptions C18_expression_fault_keeps_frame.
+
+(* ... hence a statement that evaluates its expressions itself (expression statement, 输出, declaration) and fails
+   is reported at ITS line, below the frames of whatever calls it had made ... *)
+Theorem C18_direct_statement_fault_line : forall n k st line s er s1,
+  wf st -> direct_stmt s = true ->
+  exec_stmt (eval_expr n) (S k) (set_line st line) s = Er er s1 ->
+  exists extra f tl, stack s1 = extra ++ f :: tl /\ f_line f = line /\ tl = List.tl (stack st).
+Proof. exact direct_stmt_fault_line. Qed.
+Print Assumptions C18_direct_statement_fault_line.
+
+(* ... and a fault in a 每当 condition, on any pass, at the line of the loop. *)
+Theorem C18_while_condition_fault_line : forall n body c l j st er s1,
+  wf st -> eval_expr n (set_line st l) c = Er er s1 ->
+  while_loop (eval_expr n) body c l (S j) st = Er er s1 /\
+  exists extra f tl, stack s1 = extra ++ f :: tl /\ f_line f = l /\ tl = List.tl (stack st).
+Proof. exact while_condition_fault_line. Qed.
+Print Assumptions C18_while_condition_fault_line.
+
+(* non-vacuity: 令A=【1】 / 每当A#1>0：(line 1) 以A（左移）(line 2) 令B=1 (line 3): the second test of the condition
+   fails with the index error and the program's frame shows line 1, not 3 *)
+Example C18_example_while_line :
+  let one := 4607182418800017408 in
+  let prog := {| p_inputs := []; p_catch := [];
+                 p_body := [(0, SDecl [(false, [100], EArr [ENum one])]);
+                            (1, SWhile (ELogic LGt (EIndex (EVar 100) (ENum one)) (ENum 0))
+                                  [(2, SExpr (EMethod (EVar 100) [(M_SHIFT, [])] None));
+                                   (3, SDecl [(false, [101], ENum one)])])] |} in
+  match run_program 50 prog [] with
+  | Er (ERun c) s => c = E_INDEX /\ map f_line (stack s) = [1]
+  | _ => False
+  end.
+Proof. vm_compute. split; reflexivity. Qed.
+
 (* the frames of callers keep the line of their pending call while a callee runs *)
 Theorem C18_caller_lines_kept : forall st l f tl, stack st = f :: tl ->
   exists f', stack (set_line st l) = f' :: tl /\ f_line f' = l /\ frame_sim f' f.
